@@ -19,6 +19,7 @@ def seq_nontrivial(l):
     return l.get('op') != 'make'
 
 PROPS = {}
+PENDING = {}
 
 PROPS['C01'] = dict(
     id='C01',
@@ -30,7 +31,48 @@ PROPS['C01'] = dict(
          "operand size class, index class per index argument)",
     exhaustive_subspaces="every operation with every index/slot/range in ±(n+2) and six operand shapes on 3 contents "
                          "per size n ≤ 3 (quick) / n ≤ 5 (thorough), element types int,string,float64,[]int,any, List and Array",
+    level_text="Lean 4 theorems C01_step_refines / C01_history / C01_returns / C01_panic_unchanged / C01_insert_frame: the loop-by-loop model of list.go and array.go refines the abstract ordinal-indexed sequence for every state, operation, index, slot, range, operand and finite history (no size bound). Tied to /repo on every run by a differential run (real code vs compiled Lean model on the same calls) and by the executable spec judging the real observations.",
+    level_note="The theorems are about the hand-written model; the correspondence is sampled (exhaustive only in the stated small sub-spaces). Go int is unbounded in the model; element equality is taken on canonical ids; crypto/rand is external (shuffle judged by the spec only).",
     assumptions=["Go int is unbounded in the model (indices near MaxInt not generated)",
                  "element equality is structural equality of the canonical ids (NaN excluded as the property states)",
                  "ShuffleValues: crypto/rand indices are in range (model hypothesis Op.wf); the run only judges the result by the spec"],
+)
+
+def stack_key(l):
+    return (l.get('op'), l.get('out'), size_class(len(l.get('pre', []))), min(l.get('cap', 0), 5),
+            len(l.get('pre', [])) == l.get('cap'), size_class(len(l.get('vs', []))))
+
+PROPS['C13'] = dict(
+    id='C13',
+    modules=['CollectionModel.Props.C13'],
+    key=stack_key, nontrivial=lambda l: l.get('op') not in ('getSize', 'isEmpty', 'getCapacity'),
+    rule="cases = single Stack calls (pre-state incl. capacity, operation, observation) from all mutator histories up to "
+         "depth 5 (quick) / 8 (thorough) for capacities 1..4, constructors from 0..2*default+1 initial values pushed past "
+         "capacity and popped past empty, and random histories; non-trivial = not a pure size/capacity observer; distinct = "
+         "distinct (operation, outcome, size class, capacity, full?, operand size class)",
+    exhaustive_subspaces="all histories over {AddValue, RemoveTop, RemoveAll} up to the depth bound for capacities 1..4",
+    level_text="Lean 4 theorems C13_step_refines (LIFO refinement of the guard+rebuild-loop model), C13_step_bounded / C13_bound_history (size <= capacity after every call of every history, for every capacity >= 1 and every constructor), C13_constructors_bounded, C13_panic_unchanged. Tied to /repo by the differential run and the executable LIFO spec on the real observations.",
+    level_note="Model parametric in the default capacity (read from the class at run time and shipped in every line). Sampled correspondence.",
+    assumptions=["the default capacity is read from Stack[int].DefaultCapacity() at run time"],
+)
+
+def iter_key(l):
+    n = len(l.get('vals', []))
+    s = l.get('slot', 0)
+    k = (l.get('a') or [0])[0]
+    return (l.get('src'), l.get('op'), min(n, 5), 'start' if s == 0 else 'end' if s == n else 'mid',
+            ('neg' if k < 0 else 'pos' if k > 0 else 'zero', abs(k) > n) if l.get('op') == 'toSlot' else None,
+            l.get('after'), l.get('it'))
+
+PROPS['C17'] = dict(
+    id='C17',
+    modules=['CollectionModel.Props.C17'],
+    key=iter_key, nontrivial=lambda l: True,
+    rule="cases = single iterator moves (snapshot, slot before, move, slot after, result) on iterators obtained from all "
+         "seven collection kinds: every move from every (size 0..4, slot) state, all move sequences up to length 2 (quick) / "
+         "3 (thorough), random walks interleaved with mutations of the source collection and moves of a second iterator; "
+         "distinct = distinct (source kind, move, size, slot position, ToSlot argument class, after-mutation?, which iterator)",
+    exhaustive_subspaces="every move (ToSlot k for k in -size-2..size+2) from every state (size 0..4, slot 0..size) for all seven kinds",
+    level_text="Lean 4 theorems C17_step_inv / C17_run_inv (0 <= slot <= size and the snapshot is never written, for every move sequence), C17_step_refines (every move is what the abstract cursor allows: HasNext/HasPrevious iff a value exists, GetNext/GetPrevious, zero value at the ends, ToSlot clamping and negative slots), C17_next_prev, C17_ends, C17_independent. Snapshot semantics are tied to the code by the correspondence run: the line carries the snapshot taken when the iterator was obtained and the real iterator is moved after the collection was mutated.",
+    level_note="Storage aliasing (the snapshot array is private) is a runtime fact of Go slices; it is checked dynamically by the interleaved-mutation walks, not proved. Iterator[V]().MakeFromArray(a) called directly keeps the caller's array by design and is out of scope (the property speaks of iterators obtained from collections).",
 )
